@@ -408,6 +408,37 @@ def run(tier, seed, replay):
                 c0(tt, w=w)
                 if complex(c0(tt)) != before:
                     v("replace-changes-original", f"{f.__name__}: the original coefficient changed value after replace_arguments / call-time arguments", {"f": f.__name__, "style": style})
+    # composite coefficients: replacement and call-time arguments give new values and leave the composite alone
+    def g1(t, w):
+        return np.cos(w * t)
+
+    def g2(t, w2=0.5):
+        return 1 + w2 * t
+    comps = {"sum": lambda: qutip.coefficient(g1, args={"w": 1.5}) + qutip.coefficient(g2, args={"w2": 0.25}),
+             "mul": lambda: qutip.coefficient(g1, args={"w": 1.5}) * qutip.coefficient(g2, args={"w2": 0.25}),
+             "conj": lambda: qutip.coefficient(lambda t, w: np.exp(1j * w * t), args={"w": 1.5}).conj(),
+             "norm": lambda: qutip.coefficient(lambda t, w: np.exp(1j * w * t) * (1 + t), args={"w": 1.5})._cdc(),
+             "sum-str": lambda: qutip.coefficient("cos(w*t)", args={"w": 1.5}) + qutip.coefficient(g2, args={"w2": 0.25}),
+             "sum-of-sum": lambda: (qutip.coefficient(g1, args={"w": 1.5}) + qutip.coefficient(g2, args={"w2": 0.25})) + qutip.coefficient(g1, args={"w": 0.5})}
+    for nm, mk in comps.items():
+        for tt in (0.3, 1.1):
+            try:
+                c0 = mk()
+                before = complex(c0(tt))
+                c0(tt, w2=5.0)
+                c0(tt, {"w": 2.0})
+                c1 = c0.replace_arguments(w=3.0, w2=4.0)
+                c1(tt)
+                qutip.QobjEvo([qutip.qeye(1), c0], args={"w2": 9.0})(tt)
+                after = complex(c0(tt))
+                fresh = complex(mk()(tt))
+            except Exception as e:
+                v(f"composite-raises:{nm}", f"{nm} coefficient: {type(e).__name__}: {e}"[:200])
+                continue
+            rep.evaluations += 1
+            rep.count("composite=" + nm)
+            if abs(after - before) > 1e-13 or abs(before - fresh) > 1e-13:
+                v(f"composite-changed:{nm}", f"a {nm} coefficient changed value ({before} -> {after}) after being evaluated / replaced with other arguments", {"kind": nm, "t": tt})
     # ---- string coefficients
     import importlib
     cmod = importlib.import_module('qutip.core.coefficient')
